@@ -20,7 +20,8 @@ PROPERTY = 'C15'
 LEVEL = 'exploration'
 RULE = ("the C10 module generator (by-construction outcomes incl. force-disabled, comment only, unmet REQUIRES) extended by "
         "bodies whose verdict depends on the defaults (ellipsis want, whitespace-normalised want, a wrong want that only "
-        "IGNORE_WANT lets pass) x style {auto, google, freeform} x defaults {none, -ELLIPSIS, +SKIP, -NORMALIZE_WHITESPACE, "
+        "IGNORE_WANT lets pass; a doctest that fails after binding a name followed by doctests whose outcome depends on "
+        "that name not being there) x style {auto, google, freeform} x defaults {none, -ELLIPSIS, +SKIP, -NORMALIZE_WHITESPACE, "
         "+IGNORE_WANT} passed as --options / --xdoctest-options.  Non-trivial = at least two doctests of different "
         "outcomes; distinct by (source, style, options) hash")
 ASSUMPTIONS = [
@@ -65,7 +66,8 @@ def outcome_under(kind, base, options):
 
 def required_cells(tier):
     return (['agree:passed', 'agree:failed', 'agree:skipped', 'agree:disabled', 'style:auto', 'style:google',
-             'style:freeform', 'exit:0', 'exit:1'] + ['options:' + (o or 'none') for o in set(OPTIONS)])
+             'style:freeform', 'exit:0', 'exit:1', 'leftover-pair:fail_reads_leftover', 'leftover-pair:pass_no_leftover'] +
+            ['options:' + (o or 'none') for o in set(OPTIONS)])
 
 
 def run_native(path, style, options, cwd, env):
@@ -118,7 +120,10 @@ def check_module(ctx, idx, seed):
     try:
         layout = rng.choice(['google', 'freeform'])
         style = rng.choice([layout, 'auto'])
-        om = gm.outcome_module(rng, '%dx%d' % (ctx.seed, idx), layout=layout, n=rng.randint(1, 7))
+        # every eighth module opens with a doctest that fails after binding a name, followed by one whose outcome
+        # depends on that name not being there
+        lead = ['pass', 'fail_after_binding', gm.LEFTOVER_READERS[(idx // 8) % 2]][(idx // 16) % 2:] if idx % 8 == 5 else ()
+        om = gm.outcome_module(rng, '%dx%d' % (ctx.seed, idx), layout=layout, n=rng.randint(1, 7), lead=lead)
     finally:
         gm.OUTCOMES.clear()
         gm.OUTCOMES.update(saved)
@@ -201,6 +206,10 @@ def check_module(ctx, idx, seed):
         ctx.cell('style:' + style)
         ctx.cell('options:' + (options or 'none'))
         ctx.cell('exit:%d' % (1 if nfail else 0))
+        kinds_in_order = [t['kind'] for t in om.tests]
+        for a, b in zip(kinds_in_order, kinds_in_order[1:]):
+            if a == 'fail_after_binding' and b in gm.LEFTOVER_READERS and options != '+SKIP':
+                ctx.cell('leftover-pair:' + b)
         ctx.event('verdict_pairs_compared', len(exp))
         if ctx.shard == 0:
             ctx.sample({'module_source': om.src[:1200], 'style': style, 'options': options, 'pytest_junit': pres,
